@@ -32,7 +32,10 @@ def guess_param(rng, truth, radius, F):
     """a const-free guess Param within `radius` of the truth"""
     d = (rng.standard_normal() + 1j * rng.standard_normal())
     d = d / abs(d) * radius * rng.uniform(0.2, 1.0)
-    if F > 1 and rng.random() < 0.5:
+    spread = float(np.max(np.abs(np.asarray(truth) - np.mean(truth))))
+    if F > 1 and (rng.random() < 0.5 or spread > 0.2 * radius):
+        # (one scalar cannot be within the radius of a truth that varies more
+        # than that over the band)
         return Param("vector", np.asarray(truth) + d)
     return Param("scalar", np.full(F, np.mean(truth) + d, dtype=complex))
 
@@ -46,6 +49,22 @@ def trl_scenario(rng, ctype, F):
     th = th0 * (1.0 + 1.2 * (f - f[0]) / (f[-1] - f[0] + 1.0))
     Lt = np.exp(-0.02 - 1j * th)
     Rg = guess_param(rng, Rt, 0.3, F)
+    if F >= 2 and rng.random() < 0.3:
+        # a reflect whose phase swings by more than 90 degrees from one
+        # frequency to the next while staying within 90 degrees of the one
+        # scalar guess: every frequency is solved from the guess, not from
+        # its neighbour's solution
+        # (the other solution of the analytic case is (1/L, 1/R): with
+        # |R| = 0.62..0.75 the guess -|R| is at least 1.4 times nearer to R
+        # than to 1/R, while R of the neighbouring frequency is nearer to 1/R)
+        swing = rng.uniform(np.radians(70), np.radians(85))
+        mag = rng.uniform(0.62, 0.75)
+        sg = np.array([1.0 if (k + int(rng.integers(0, 2))) % 2 else -1.0
+                       for k in range(F)])
+        if np.all(sg == sg[0]):
+            sg[-1] = -sg[0]
+        Rt = mag * np.exp(1j * (np.pi + sg * swing))
+        Rg = Param("scalar", np.full(F, -mag, dtype=complex))
     # the two candidate roots for the line are L and 1/L: the guess must be
     # nearer the true one at every frequency (phase error below the smaller
     # of theta and pi - theta), with margin
@@ -530,7 +549,7 @@ def work_again(chunk_id, payload):
     """the analytic through / reflect / line case solved twice in one
     vnacal_t with the same two unknown handles (same initial guesses): the
     second set of standards has another reflect, whose sign ambiguity is
-    resolved correctly from the guess (-1) but wrongly from the first
+    resolved correctly from the guess (-|R|) but wrongly from the first
     solution.  Every solve starts from the guesses the user gave."""
     seed, n, binary, workroot = payload
     part = dict(evaluations=0, counters={}, maxima={}, distinct=set(),
@@ -546,8 +565,12 @@ def work_again(chunk_id, payload):
         B.freqs = A.freqs.copy()
         (_, RpA), (_, LpA) = unkA
         (_, RpB), (_, LpB) = unkB
-        th = rng.uniform(np.radians(60), np.radians(85))
-        mag = rng.uniform(0.8, 1.0)
+        # the other solution of the analytic case is (1/L, 1/R): with
+        # |R| = 0.62..0.75 the guess -|R| is at least 1.4 times nearer to the
+        # second R than to its reciprocal, while the first solution is nearer
+        # to the reciprocal
+        th = rng.uniform(np.radians(70), np.radians(85))
+        mag = rng.uniform(0.62, 0.75)
         RpA.values = np.full(F, mag * np.exp(1j * (np.pi - th)))
         RpB.values = np.full(F, mag * np.exp(1j * (np.pi + th)))
         RpA.guess = Param("scalar", np.full(F, -mag, dtype=complex))
